@@ -146,7 +146,11 @@ func (e *Engine) runReplay(fi *FuncInfo, c *FuncContract, modelCases [][]*CV, se
 				panic(x)
 			}
 		}()
-		for _, v := range ins {
+		for i, v := range ins {
+			if i == 0 && fi.Sig.Recv() != nil && c != nil && c.Flags["replay"] == "zero-receiver" {
+				cs = append(cs, &CV{K: "zero"})
+				continue
+			}
 			cs = append(cs, genValue(v.Type(), r, 0))
 		}
 		return cs, ""
@@ -457,7 +461,12 @@ func (e *Engine) modelCase(fi *FuncInfo, o *Obligation) []*CV {
 				panic(x)
 			}
 		}()
-		for _, v := range ins {
+		c := e.cs.Funcs[fi.Key]
+		for i, v := range ins {
+			if i == 0 && fi.Sig.Recv() != nil && c != nil && c.Flags["replay"] == "zero-receiver" {
+				cs = append(cs, &CV{K: "zero"})
+				continue
+			}
 			cs = append(cs, genValue(v.Type(), r, 0))
 		}
 	}()
